@@ -1,8 +1,10 @@
 // C04 — the live engine behaves like a simple map-of-records state machine.
 //
 // Exhaustive exploration of operation histories (explicit-state, model = oracle):
-//   family A: every sequence of length d over a sharp alphabet on one index;
-//   family B: base histories x every placement of <=k maintenance operations.
+//
+//	family A: every sequence of length d over a sharp alphabet on one index;
+//	family B: base histories x every placement of <=k maintenance operations.
+//
 // After every operation the full read-out of the real engine must equal the
 // read-out predicted by hx.RefDB.
 package c04
@@ -139,6 +141,9 @@ func run(c *vk.Ctx) {
 	}
 	names := []string{}
 	bs := hx.Bases()
+	for n, h := range hx.BigBases() {
+		bs[n] = h
+	}
 	for n := range bs {
 		names = append(names, n)
 	}
